@@ -9,7 +9,8 @@
    ResendRequest frames among the written frames.
 
    Known-finding classes (the `_partial` theorems exclude exactly these steps, `_refuted` exhibit them):
-     D10_step  an application frame numbered below the expected number arrives in RESENDREQ_AWAITING
+     (D10 - re-delivery of a frame numbered below the expected number while RESENDREQ_AWAITING - is repaired
+      in the code: C04_deliver_exactly_expected / C04_no_redelivery now hold without exception)
      D11_step  a SequenceReset passing the integrity check whose own number is not the expected one,
                or whose NewSeqNo is below the expected number
      D24       (single_resend) a Logon arriving while RESENDREQ_AWAITING (see C04_logon_dup_resend_refuted) *)
@@ -24,18 +25,33 @@ Example C04_enums_tied : enums_ok = true.
 Proof. exact enums_tied. Qed.
 Print Assumptions C04_enums_tied.
 
-(* every history, every start state: nothing is handed to the application with a number above the
-   expected one (nothing is delivered past a gap) *)
+(* every history, every start state: a delivery carries exactly the expected number of its moment, is the
+   only delivery of its step, and the expected number afterwards is that number + 1 *)
+Theorem C04_deliver_exactly_expected : forall c h w,
+  Forall (fun s => delivered s = [] \/
+                   (delivered s = [nin (s_before s)] /\ nin (s_after s) = nin (s_before s) + 1)) (run c w h).
+Proof. exact run_deliver_exact. Qed.
+Print Assumptions C04_deliver_exactly_expected.
+
+(* ... in particular nothing is handed to the application with a number above the expected one (never past a gap) *)
 Theorem C04_deliver_at_most_expected : forall c h w,
   Forall (fun s => forall n, In n (delivered s) -> n <= nin (s_before s)) (run c w h).
 Proof. exact run_deliver_le. Qed.
 Print Assumptions C04_deliver_at_most_expected.
 
-(* outside the classes D10 and D11: the delivered numbers of the whole history are strictly increasing,
+(* ... and an inbound message numbered below the expected number is never handed to the application, in any
+   state (in RESENDREQ_AWAITING the integrity check lets it through; it is then dropped by the dispatcher) *)
+Theorem C04_no_redelivery : forall c h w,
+  Forall (fun s => forall m now n, s_op s = OIn m now -> get_int T34 m = inl n -> n < nin (s_before s) ->
+                                   apps (s_events s) = []) (run c w h).
+Proof. exact run_no_redelivery. Qed.
+Print Assumptions C04_no_redelivery.
+
+(* outside class D11: the delivered numbers of the whole history are strictly increasing (nothing twice),
    each delivery carries exactly the expected number of its moment, is the only delivery of its step,
    and the expected number afterwards is that number + 1 *)
 Theorem C04_inorder_partial : forall c h w,
-  Forall (fun s => ~ D10_step s /\ ~ D11_step c s) (run c w h) ->
+  Forall (fun s => ~ D11_step c s) (run c w h) ->
   Forall (fun n => nin w <= n) (flat_map delivered (run c w h))
   /\ StronglySorted Z.lt (flat_map delivered (run c w h))
   /\ Forall (fun s => forall n, In n (delivered s) ->
@@ -86,11 +102,12 @@ Theorem C04_counter_forward_partial : forall c h w,
 Proof. exact run_counter_forward. Qed.
 Print Assumptions C04_counter_forward_partial.
 
-(* D10: from a freshly connected acceptor: Logon(1), 2, 4 (gap), 2 again -> 2 is delivered twice *)
-Theorem C04_dup_during_resend_refuted :
-  exists c w h, ~ StronglySorted Z.lt (flat_map delivered (run c w h)).
-Proof. exact dup_during_resend_refuted. Qed.
-Print Assumptions C04_dup_during_resend_refuted.
+(* the former D10 witness: Logon(1), 2, 4 (gap), 2 again -> 2 is delivered once; the connection still awaits 3 *)
+Example C04_dup_not_redelivered :
+  flat_map delivered (run cfg0 w_acceptor h_dup) = [2]
+  /\ st (final cfg0 w_acceptor h_dup) = ST_AWAITING /\ nin (final cfg0 w_acceptor h_dup) = 3.
+Proof. exact dup_not_redelivered. Qed.
+Print Assumptions C04_dup_not_redelivered.
 
 (* D11: a gap fill numbered above the expected number moves the expected number past the missing
    messages; no ResendRequest is ever written for them *)
@@ -121,7 +138,7 @@ Print Assumptions C04_logon_dup_resend_refuted.
 (* non-vacuity: Logon, 2, 5 (gap, one ResendRequest), 3, 4, GapFill 5->7, 7 is inside the scope of the
    partial theorems, delivers 2 3 4 7 and ends ACTIVE *)
 Example C04_nonvacuous :
-  Forall (fun s => ~ D10_step s /\ ~ D11_step cfg0 s) (run cfg0 w_acceptor h_good)
+  Forall (fun s => ~ D11_step cfg0 s) (run cfg0 w_acceptor h_good)
   /\ flat_map delivered (run cfg0 w_acceptor h_good) = [2; 3; 4; 7]
   /\ length (resends (trace (run cfg0 w_acceptor h_good))) = 1%nat
   /\ st (final cfg0 w_acceptor h_good) = ST_ACTIVE.
